@@ -1,5 +1,6 @@
 import SSVerif.Model.Hmm
 import SSVerif.Model.Nfa
+import SSVerif.Model.Beam
 /-!
 # The flat context-dependent network of an FSG search (C02, model M9, layer 2)
 
@@ -227,6 +228,40 @@ def buildFrom (M : Model) (tmat : Nat → List Nat) (insts : Array Inst) : LNet 
     else []
   { inner := intra ++ phone, cross := cross, init := init, exits := exits,
     lab := fun s => (insts.getD (s / 3) default).arc, n := 3 * insts.size }
+
+/-- the same network with the components of every edge kept apart, for the beam model (`Model/Beam.lean`):
+`(buildB …).toNet = (buildFrom …).toNet` (`buildB_toNet`) -/
+def buildB (M : Model) (tmat : Nat → List Nat) (insts : Array Inst) : SSVerif.Beam.BNet :=
+  let idx := insts.toList.zipIdx
+  let intra := idx.flatMap fun (h, hi) =>
+    (hmmEdges (tmat h.tmat) hi).map fun (a, b, c) => ({ src := a, dst := b, cx := c, hop := none, entry := none } : SSVerif.Beam.BEdge)
+  let phone := idx.flatMap fun (h, hi) =>
+    if h.isLeaf then [] else
+    idx.flatMap fun (h', hj) =>
+      if h'.arc = h.arc ∧ h'.pos = h.pos + 1 then
+        (hmmExits (tmat h.tmat)).map fun (k, cx) =>
+          ({ src := st hi k, dst := st hj 0, cx := cx, hop := none, entry := some h'.entry } : SSVerif.Beam.BEdge)
+      else []
+  let cross := idx.flatMap fun (h, hi) =>
+    if !h.isLeaf then [] else
+    idx.flatMap fun (h', hj) =>
+      if h'.isRoot ∧ (h'.lc = none ∨ h'.lc = some h.ciExt) ∧ (h.rc = none ∨ h.rc = some h'.ciExt) then
+        (hops M h.dst h'.src).flatMap fun hop =>
+          (hmmExits (tmat h.tmat)).map fun (k, cx) =>
+            ({ src := st hi k, dst := st hj 0, cx := cx, hop := some hop, entry := some h'.entry } : SSVerif.Beam.BEdge)
+      else []
+  let init := idx.flatMap fun (h', hj) =>
+    if h'.isRoot ∧ (h'.lc = none ∨ h'.lc = some M.sil) then
+      (hops M M.start h'.src).map fun hop => ({ state := st hj 0, hop := hop, entry := h'.entry } : SSVerif.Beam.BInit)
+    else []
+  let exits := idx.flatMap fun (h, hi) =>
+    if h.isLeaf then
+      (hops M h.dst M.final).flatMap fun hop =>
+        (hmmExits (tmat h.tmat)).map fun (k, cx) => ({ state := st hi k, cx := cx, hop := hop } : SSVerif.Beam.BExit)
+    else []
+  { edges := intra ++ phone ++ cross, init := init, exits := exits,
+    outs := idx.flatMap fun (h, hi) => (hmmExits (tmat h.tmat)).map fun (k, cx) => (st hi k, cx),
+    hmm := fun s => s / 3 }
 
 /-- the flat network of a model (`none`: the dump lacks a needed table entry) -/
 def build (M : Model) (tmat : Nat → List Nat) : Option (LNet × Array Inst) :=
